@@ -300,6 +300,11 @@ func (t *Tree) removeTip(tip *Node) error {
 	}
 	tip.neigh = nil
 	internal := tip.br[0].left
+	if internal == tip {
+		// the tip is the root itself: its only neighbor takes its place
+		internal = tip.br[0].right
+		t.root = internal
+	}
 	if err := internal.delNeighbor(tip); err != nil {
 		return err
 	}
